@@ -101,6 +101,19 @@ def inject(text, cls, rng):
         if not sites:
             return None
         i = rng.choice(sites)
+        variant = rng.choice(["plain", "plain", "attr-line-above", "as-match-field"])
+        if variant == "attr-line-above":
+            # the second declaration starts at its attribute: that is the offending line
+            L.insert(i + 1, "    @tag(77)")
+            L.insert(i + 2, L[i])
+            return "\n".join(L) + "\n", i + 2
+        if variant == "as-match-field":
+            m = re.match(r"    (?:repeat )?[\w\[\]]+ (\w+)", L[i])
+            owner = [n for a, b, n, r in pk if a < i < b]
+            others = [n for n in names if not owner or n != owner[0]]
+            if m and others:
+                L[i + 1:i + 1] = ["    u8 ZkKey,", "    match ZkKey as %s {" % m.group(1), "        1 : %s," % others[-1], "    },"]
+                return "\n".join(L) + "\n", i + 3
         L.insert(i + 1, L[i])
         return "\n".join(L) + "\n", i + 2
     if cls == "dup_match_key":
